@@ -2250,6 +2250,10 @@ return 1;""",
         """Use a helper function.
         Return the name of the function associated with helper.
         """
+        if name not in whelpers.CHelpers:
+            raise RuntimeError(
+                "No helper '{}': the type is not supported "
+                "by the Python wrapper".format(name))
         self.c_helper[name] = True
         # Adjust for alias like with type char.
         return whelpers.CHelpers[name]["name"]
